@@ -76,6 +76,57 @@ func c15Case(c *ctx, ts []jsonapi.Type, how string) {
 			key, detail = "check-modifies-schema", "types differ after Check"
 		}
 	}
+	// the same schema reached through edits, with Check consulted on the way, is judged the same
+	if key == "" && !p {
+		same := func(h *jsonapi.Schema) bool {
+			if len(h.Types) != len(snap.Types) {
+				return false
+			}
+			for i := range h.Types {
+				if oType(h.Types[i]) != oType(snap.Types[i]) {
+					return false
+				}
+			}
+			return true
+		}
+		for variant := 0; variant < 2 && key == ""; variant++ {
+			if ph, pvh := guard(func() {
+				h := &jsonapi.Schema{}
+				for _, t := range copyTypes(ts) {
+					bare := jsonapi.Type{Name: t.Name, Attrs: t.Attrs}
+					if variant == 1 {
+						bare.Rels = map[string]jsonapi.Rel{}
+					}
+					_ = h.AddType(bare)
+					_ = h.Check()
+				}
+				for _, t := range copyTypes(ts) {
+					for k, r := range t.Rels {
+						if variant == 0 {
+							if k == r.FromName {
+								if _, have := h.GetType(t.Name).Rels[k]; have {
+									// the other end of a pair already brought it
+								} else if r.ToName == "" || h.AddTwoWayRel(r) != nil {
+									_ = h.AddRel(t.Name, r)
+								}
+							}
+						} else if gt := h.GetType(t.Name); gt.Rels != nil {
+							gt.Rels[k] = r // the Type value GetType returns shares its maps with the schema
+						}
+						_ = h.Check()
+					}
+				}
+				if !same(h) {
+					return
+				}
+				if errs2 := h.Check(); len(errs2) != len(errs) {
+					key, detail = "check-depends-on-history", fmt.Sprintf("built by edits with Check consulted on the way (variant %d): %d errors, written down: %d", variant, len(errs2), len(errs))
+				}
+			}); ph {
+				key, detail = "check-panics", fmt.Sprint(pvh)
+			}
+		}
+	}
 	nrels := 0
 	for _, t := range ts {
 		nrels += len(t.Rels)
